@@ -13,7 +13,7 @@ PROP = "C12"
 
 
 def plan(tier, seed):
-    k = 80 if tier == "quick" else 2000
+    k = 160 if tier == "quick" else 2000
     return [{"seed": seed, "shard": i, "n": 120} for i in range(k)] + \
         [{"kind": "year_views", "seed": seed, "shard": i, "n": 60} for i in range(k // 5)]
 
